@@ -3,6 +3,8 @@
 AudA_ == "https://api.a.example/"
 Authz(c, rt, sc, gr, au, rd, pk) ==
   [op |-> "authorize", client |-> c, rtype |-> rt, scopes |-> sc, grant |-> gr, aud |-> au, redir |-> rd, pkce |-> pk]
+AuthzG(c, rt, sc, gr, au, gau, rd, pk) ==      \* ... with partial consent on the audience
+  [op |-> "authorize", client |-> c, rtype |-> rt, scopes |-> sc, grant |-> gr, aud |-> au, gaud |-> gau, redir |-> rd, pkce |-> pk]
 Redeem(c, a, k, rd, v, xs, xa) ==
   [op |-> "redeem", client |-> c, auth |-> a, code |-> k, redir |-> rd, ver |-> v, xscope |-> xs, xaud |-> xa]
 Refresh(c, a, j, xs, xa) == [op |-> "refresh", client |-> c, auth |-> a, tok |-> j, xscope |-> xs, xaud |-> xa]
